@@ -37,7 +37,7 @@ def load_known():
 _SNIPPET_CACHE: dict = {}
 
 
-def run_snippet(code: str, path: str, timeout=120):
+def run_snippet(code: str, path: str, timeout=300):
     os.makedirs(os.path.dirname(path), exist_ok=True)
     with open(path, "w") as f:
         f.write(code)
@@ -50,7 +50,7 @@ def run_snippet(code: str, path: str, timeout=120):
     return res
 
 
-def _run_snippet_uncached(path: str, timeout=120):
+def _run_snippet_uncached(path: str, timeout=300):
     env = dict(os.environ)
     env["PYTHONPATH"] = S.REPO_SRC + os.pathsep + env.get("PYTHONPATH", "")
     env.setdefault("PYTHONHASHSEED", "0")
@@ -188,15 +188,21 @@ def _work(args):
                     rec["verdict"] = "unknown"
             out["obligations"].append(rec)
         if tier == "thorough" and con.replay_ is not None and getattr(con, "replay_without_model", False) and out["obligations"] \
-                and all(o["verdict"] == "proved" for o in out["obligations"]):
+                and all(o["verdict"] in ("proved", "covered") for o in out["obligations"]):
             # Cross-check of the proof against CPython (thorough tier only): every obligation of the function was discharged, so the
             # contract's witness inputs must not fail on the real code.  If they do - twice in a row - the executor's model of the
             # code or a trusted assumption is wrong, and the failing input is a violation in its own right.  A bounded check (the
             # listed inputs only): it adds nothing to what counts as proved.
+            carved = [k["id"] for k in load_known() if k.get("status") == "open" and k["id"] in set(active_known)
+                      and k.get("obligation", "").split(" :: ")[0].split("#")[0] == con.key]
             try:
-                code = con.replay_(None, None, None)
+                code = None if carved else con.replay_(None, None, None)
             except Exception:  # noqa: BLE001
                 code = None
+            if carved:
+                # a recorded known finding is carved out of this function, and the function's witness is what re-confirms that
+                # finding on every run: it fails by design, so it cannot serve as a cross-check
+                out["cross_check"] = {"kind": "skipped: the witness of this function re-confirms the known finding " + ", ".join(carved), "reproduced": False, "replay": ""}
             if code:
                 path = os.path.join(REPLAY_DIR, pack.prop_id, f"{_safe(con.qualname)}__crosscheck.py")
                 header = (f"# replay for property {pack.prop_id}\n# function: {con.key}\n"
@@ -328,10 +334,15 @@ def report(pack: Pack, results, tier, seed, wall, known_lines, active):
         if r.get("bounded"):
             bounded.append({k: r[k] for k in ("key", "bound", "cases", "result") if k in r})
         if r.get("cross_check"):
-            bounded.append({"key": r["key"], "bound": r["cross_check"]["kind"], "result": "a witness input fails" if r["cross_check"]["reproduced"] else "no witness input fails"})
+            bounded.append({"key": r["key"], "bound": r["cross_check"]["kind"],
+                            "result": "not run" if r["cross_check"]["kind"].startswith("skipped") else ("a witness input fails" if r["cross_check"]["reproduced"] else "no witness input fails")})
         fo = 0
         for ob in r["obligations"]:
             if ob.get("bounded"):
+                # a bounded stand-in never counts as an obligation discharged; a case of it that fails on the real code is a failing
+                # input like any other and is reported
+                if ob["verdict"] == "refuted":
+                    violations.append((r["key"], ob))
                 continue
             n_ob += 1
             fo += 1
@@ -344,7 +355,7 @@ def report(pack: Pack, results, tier, seed, wall, known_lines, active):
                 violations.append((r["key"], ob))
             else:
                 undecided.append((r["key"], ob))
-        if not r.get("lemma") and not r.get("extra") and fo == 0:
+        if not r.get("lemma") and not r.get("extra") and not r.get("bounded") and fo == 0:
             errors.append((r["key"], "zero obligations generated for a contracted function (vacuity guard)"))
         funcs.append({"function": r["key"], "file": r.get("file", ""), "lines": r.get("lines", [0, 0]), "obligations": fo, "paths": r.get("paths", 0), "inlined_callees": r.get("inlined", []), "callee_contracts_used": r.get("contracts_used", []), "time_s": r.get("time_s", 0)})
         if r.get("sample"):
